@@ -139,6 +139,13 @@ impl ZerokitMerkleTree for PmTree {
     }
 
     fn new(depth: usize, _default_leaf: FrOf<Self::Hasher>, config: Self::Config) -> Result<Self> {
+        #[cfg(zerokit_verif)]
+        if let Some(sc) = utils::verif_trace::enter() {
+            let r = Self::new(depth, _default_leaf, config);
+            let init = utils::verif_trace::q(&_default_leaf);
+            sc.finish_new("pm", r.as_ref().ok().map(|t| (t, t.verif_id())), depth, init);
+            return r;
+        }
         let tree_loaded = pmtree::MerkleTree::load(config.clone().0);
         let tree = match tree_loaded {
             Ok(tree) => tree,
@@ -173,6 +180,14 @@ impl ZerokitMerkleTree for PmTree {
     }
 
     fn set(&mut self, index: usize, leaf: FrOf<Self::Hasher>) -> Result<()> {
+        #[cfg(zerokit_verif)]
+        if let Some(sc) = utils::verif_trace::enter() {
+            let args = format!("\"i\":{},\"v\":{}", index, utils::verif_trace::q(&leaf));
+            let sc = sc.call::<Self>(self.verif_id(), "pm", "set", args);
+            let r = self.set(index, leaf);
+            sc.finish(self, r.is_ok(), &[index]);
+            return r;
+        }
         self.tree
             .set(index, leaf)
             .map_err(|e| Report::msg(e.to_string()))?;
@@ -185,6 +200,16 @@ impl ZerokitMerkleTree for PmTree {
         start: usize,
         values: I,
     ) -> Result<()> {
+        #[cfg(zerokit_verif)]
+        if let Some(sc) = utils::verif_trace::enter() {
+            let vs = values.into_iter().collect::<Vec<_>>();
+            let args = format!("\"s\":{},\"vs\":{}", start, utils::verif_trace::q_list(&vs));
+            let sc = sc.call::<Self>(self.verif_id(), "pm", "range", args);
+            let touched = (start..start.saturating_add(vs.len())).collect::<Vec<_>>();
+            let r = self.set_range(start, vs.into_iter());
+            sc.finish(self, r.is_ok(), &touched);
+            return r;
+        }
         let v = values.into_iter().collect::<Vec<_>>();
         if v.is_empty() {
             // nothing to write: the tree (and its next_index) is left as it is
@@ -240,6 +265,23 @@ impl ZerokitMerkleTree for PmTree {
         leaves: I,
         indices: J,
     ) -> Result<()> {
+        #[cfg(zerokit_verif)]
+        if let Some(sc) = utils::verif_trace::enter() {
+            let vs = leaves.into_iter().collect::<Vec<_>>();
+            let rem = indices.into_iter().collect::<Vec<_>>();
+            let args = format!(
+                "\"s\":{},\"vs\":{},\"rem\":{}",
+                start,
+                utils::verif_trace::q_list(&vs),
+                utils::verif_trace::n_list(&rem)
+            );
+            let sc = sc.call::<Self>(self.verif_id(), "pm", "override", args);
+            let mut touched = (start..start.saturating_add(vs.len())).collect::<Vec<_>>();
+            touched.extend(rem.iter().copied());
+            let r = self.override_range(start, vs.into_iter(), rem.into_iter());
+            sc.finish(self, r.is_ok(), &touched);
+            return r;
+        }
         let leaves = leaves.into_iter().collect::<Vec<_>>();
         let mut indices = indices.into_iter().collect::<Vec<_>>();
         indices.sort();
@@ -255,6 +297,15 @@ impl ZerokitMerkleTree for PmTree {
     }
 
     fn update_next(&mut self, leaf: FrOf<Self::Hasher>) -> Result<()> {
+        #[cfg(zerokit_verif)]
+        if let Some(sc) = utils::verif_trace::enter() {
+            let args = format!("\"v\":{}", utils::verif_trace::q(&leaf));
+            let sc = sc.call::<Self>(self.verif_id(), "pm", "append", args);
+            let at = self.leaves_set();
+            let r = self.update_next(leaf);
+            sc.finish(self, r.is_ok(), &[at]);
+            return r;
+        }
         let index = self.tree.leaves_set();
         self.tree
             .update_next(leaf)
@@ -264,6 +315,13 @@ impl ZerokitMerkleTree for PmTree {
     }
 
     fn delete(&mut self, index: usize) -> Result<()> {
+        #[cfg(zerokit_verif)]
+        if let Some(sc) = utils::verif_trace::enter() {
+            let sc = sc.call::<Self>(self.verif_id(), "pm", "delete", format!("\"i\":{}", index));
+            let r = self.delete(index);
+            sc.finish(self, r.is_ok(), &[index]);
+            return r;
+        }
         self.tree
             .delete(index)
             .map_err(|e| Report::msg(e.to_string()))?;
@@ -387,5 +445,20 @@ impl ZerokitMerkleProof for PmTreeProof {
     }
     fn compute_root_from(&self, leaf: &FrOf<Self::Hasher>) -> FrOf<Self::Hasher> {
         self.proof.compute_root_from(leaf)
+    }
+}
+
+/// Verification hook H2 (compiled only with `--cfg zerokit_verif`): instance identity and drop event
+#[cfg(zerokit_verif)]
+impl PmTree {
+    fn verif_id(&self) -> usize {
+        self.cached_leaves_indices.as_ptr() as usize
+    }
+}
+
+#[cfg(zerokit_verif)]
+impl Drop for PmTree {
+    fn drop(&mut self) {
+        utils::verif_trace::dropped(self.verif_id(), "pm");
     }
 }
